@@ -93,6 +93,7 @@ func (w *World) modsOfFunc(key string, c *Ctx, visiting map[string]bool) *modSet
 	// seen from a caller, lock and once state are left balanced (checked by the callee's own lock-released@exit)
 	delete(out.heaps, "LK")
 	delete(out.heaps, "ONCE")
+	delete(out.heaps, "NRT") // per-activation counters of direct calls (flag countresult)
 	w.mods[key] = out
 	return out
 }
@@ -470,6 +471,9 @@ func (w *World) callMods(pkg *packages.Package, c *Ctx, call *ast.CallExpr, ms *
 		}
 	}
 	sig := fn.Type().(*types.Signature)
+	if sp, ok := w.Specs[key]; ok && sp.Flags["countresult"] != "" {
+		ms.heaps["NRT"] = true
+	}
 	if _, inRepo := w.Funcs[key]; !inRepo {
 		if _, hasSpec := w.Specs[key]; !hasSpec {
 			// external callee without contract: it may call back the methods of an argument passed as an interface
